@@ -288,8 +288,8 @@ theorem lnSubExp_exact (a b : LP) (hab : lin b ≤ lin a) : lin (lnSubExp exp a 
 /-- `Prob::checked` -/
 noncomputable def checked (p : ℝ) : Option ℝ := if 0 ≤ p ∧ p ≤ 1 then some p else none
 
-/-- the literals of `src/stats/probs/mod.rs` -/
-def LOG_TO_PHRED_FACTOR : ℚ := -4.3429448190325175
-def PHRED_TO_LOG_FACTOR : ℚ := -0.23025850929940456
+/- the scale literals of `src/stats/probs/mod.rs` (`LOG_TO_PHRED_FACTOR`, `PHRED_TO_LOG_FACTOR`) are no longer copied
+here: they are extracted from the source on every run (`RbV/Gen/Scales.lean`) and defined over the extracted values in
+`RbV/Lemmas/C15Gen.lean`. -/
 
 end RbV.C15
